@@ -357,7 +357,9 @@ namespace
         {
             // type-erased std_allocator, rebound from another value type: the copy is made through the
             // type-erased base class (reference_storage<any_allocator>'s constructor from its base_allocator)
-            fm::any_std_allocator<char> s0(a);
+            fm::any_allocator_reference r1(a);
+            fm::any_allocator_reference r2(r1.get_allocator()); // no double nesting: built from the type-erased base
+            fm::any_std_allocator<char> s0(r2);
             auto                        sa = std::make_shared<fm::any_std_allocator<T>>(s0);
             T*                          q  = sa->allocate(n);
             p                              = q;
